@@ -69,3 +69,93 @@ void h_parent(void) {
     OBLIGATION((mask & (mask + 1)) == 0 && (hash & mask) == hash && (hash & (mask >> 1)) == parent, "C10.parent: the new bucket's mask is the parent's mask extended by one bit");
     VACUITY_END();
 }
+
+#ifdef ERASE
+/* ---- erase protocol (internal_erase / exclude): rely/guarantee over the bucket lock, the element lock and the bucket's list ---- */
+#undef ATOMIC_LOAD
+typedef struct node_base { struct node_base *next; } node_base;
+typedef struct hbucket { node_base *node_list; } hbucket;
+typedef int key_type;
+struct chm { hashcode_type my_mask; size_t my_size; };
+struct bucket_accessor { hbucket *my_b; };
+struct const_accessor { node_base *my_node; hashcode_type my_hash; bool writer; };
+#define NP 4
+node_base POOL[NP]; hbucket BKT;     /* the nodes reachable from the locked bucket live in POOL (any shape: next pointers are arbitrary pool members or NULL) */
+#define IN_POOL(p) (__CPROVER_same_object((p), POOL) && __CPROVER_POINTER_OFFSET(p) % sizeof(node_base) == 0 && __CPROVER_POINTER_OFFSET(p) < sizeof(POOL))
+#define IS_VALID(p) ((uintptr_t)(p) > (uintptr_t)63)
+static node_base *any_node(void) { size_t j = nondet_size_t(); if (j >= NP) return NULL; return &POOL[j]; }
+static void havoc_list(void) { POOL[0].next = any_node(); POOL[1].next = any_node(); POOL[2].next = any_node(); POOL[3].next = any_node(); BKT.node_list = any_node(); }
+/* ghost */
+int g_b_mode;                      /* bucket lock held by this thread: 0 none, 1 reader, 2 writer */
+unsigned g_tenure, g_search_tenure; /* a tenure = one uninterrupted holding of the bucket lock; the list may change between tenures only */
+node_base *g_unlinked; unsigned g_unlinks, g_deleted, g_elem_locks, g_size_dec; node_base *g_elem_n; bool g_elem_w; int g_elem_mode_at_lock;
+bool g_acc_released, g_acc_writer_at_release; unsigned g_acc_release_after_unlinks;
+static hashcode_type any_mask(void) { hashcode_type m = nondet_size_t(); __CPROVER_assume((m & (m + 1)) == 0 && m >= 1); return m; }
+#define ATOMIC_LOAD(f) any_mask()          /* rely: my_mask only grows, at any time: every load may see any mask */
+#define ATOMIC_DEC(f) (g_size_dec++)
+static hashcode_type STUB_hash(key_type k) { return nondet_size_t(); }
+static bool STUB_equal(key_type k, node_base *n) { return nondet_bool(); }
+static bool STUB_check_rehashing_collision(struct chm *self, hashcode_type h, hashcode_type m_old, hashcode_type m) { return nondet_bool(); }
+static void BA_ctor(struct bucket_accessor *b, struct chm *self, hashcode_type h, bool writer) {
+    __CPROVER_assert(g_b_mode == 0, "C10.erase: one bucket lock at a time");
+    b->my_b = &BKT; g_b_mode = (writer || nondet_bool()) ? 2 : 1;   /* a bucket that had to be rehashed is returned write-locked */
+    g_tenure++; havoc_list();
+}
+static void BA_dtor(struct bucket_accessor *b) { __CPROVER_assert(g_b_mode != 0, "C10.erase: the bucket lock is released once"); g_b_mode = 0; }
+static hbucket *BA_bucket(struct bucket_accessor *b) { return b->my_b; }
+static bool BA_is_writer(struct bucket_accessor *b) { return g_b_mode == 2; }
+static bool BA_upgrade_to_writer(struct bucket_accessor *b) {
+    __CPROVER_assert(g_b_mode == 1, "C10.erase: upgrade from reader");
+    g_b_mode = 2;
+    if (nondet_bool()) return true;
+    g_tenure++; havoc_list(); return false;      /* contended: the lock was dropped and re-acquired; another writer may have changed the list */
+}
+#define GHOST_SEARCH_START() (g_search_tenure = g_tenure)
+#define UNLINK_COMMON(n) do { \
+    __CPROVER_assert(g_b_mode == 2, "C10.erase: a node is unlinked only under the bucket's WRITER lock (of several concurrent erases of a key exactly one unlinks it)"); \
+    __CPROVER_assert(g_search_tenure == g_tenure, "C10.erase: the position used for unlinking was found during the current holding of the lock (re-searched after a contended upgrade)"); \
+    g_unlinked = (n); g_unlinks++; } while (0)
+#define UNLINK_HEAD(b, n) do { UNLINK_COMMON(n); __CPROVER_assert(BA_bucket(b)->node_list == (n), "C10.erase: the node unlinked as list head is the list head"); BA_bucket(b)->node_list = (n)->next; } while (0)
+#define UNLINK_AFTER(b, pr, n) do { UNLINK_COMMON(n); __CPROVER_assert(IN_POOL(pr) && (pr)->next == (n), "C10.erase: the node unlinked is the successor of prev: no other node is dropped from the list"); (pr)->next = (n)->next; } while (0)
+#define ELEM_SCOPED_LOCK(n, w) do { g_elem_locks++; g_elem_n = (n); g_elem_w = (w); g_elem_mode_at_lock = g_b_mode; } while (0)   /* lock ... unlock: the scope holds nothing else */
+static void STUB_delete_node(struct chm *self, node_base *n) {
+    __CPROVER_assert(g_unlinks == 1 && n == g_unlinked, "C10.erase: only the node this call unlinked is destroyed");
+    g_deleted++;
+}
+static void ACC_release(struct const_accessor *a) { if (a->my_node) { g_acc_released = true; g_acc_writer_at_release = a->writer; g_acc_release_after_unlinks = g_unlinks; a->my_node = NULL; } }
+static bool ACC_is_writer(struct const_accessor *a) { return a->writer; }
+static bool ACC_upgrade_to_writer(struct const_accessor *a) { a->writer = true; return nondet_bool(); }   /* returns once this thread is the only holder (C08) */
+#define CUT_restart() do { __CPROVER_assert(g_b_mode == 0 && g_unlinks == 0 && g_deleted == 0 && g_size_dec == 0 && g_elem_locks == 0, "C10.erase: a restart begins from the clean state the entry path explores (no lock, nothing unlinked)"); __CPROVER_assume(0); } while (0)
+#define CUT_search(b) do { __CPROVER_assert(g_b_mode != 0 && g_unlinks == 0 && g_deleted == 0 && g_size_dec == 0 && g_elem_locks == 0, "C10.erase: a re-search begins with the bucket locked and nothing unlinked"); __CPROVER_assume(0); } while (0)
+#define LOOP_erase_1 __CPROVER_assigns(prev, erase_node) __CPROVER_loop_invariant((erase_node == NULL || IN_POOL(erase_node)) && (prev == NULL ? erase_node == BKT.node_list : (IN_POOL(prev) && prev->next == erase_node)))
+#define LOOP_excl_2 __CPROVER_assigns(prev, curr) __CPROVER_loop_invariant((curr == NULL || IN_POOL(curr)) && (prev == NULL ? curr == BKT.node_list : (IN_POOL(prev) && prev->next == curr)))
+#include "erase.inc"
+static void einit(void) { g_b_mode = 0; g_tenure = nondet_unsigned(); __CPROVER_assume(g_tenure < 1000); g_search_tenure = 0; g_unlinked = NULL; g_unlinks = g_deleted = g_elem_locks = g_size_dec = 0; g_acc_released = false; }
+void h_erase(void) {
+    struct chm m; einit();
+    bool r = internal_erase(&m, nondet_int());
+    OBLIGATION(g_b_mode == 0, "C10.erase: the bucket lock is released on every path");
+    if (r) {
+        OBLIGATION(g_unlinks == 1 && g_deleted == 1 && g_size_dec == 1, "C10.erase: a successful erase unlinks, counts and destroys exactly one node");
+        OBLIGATION(g_elem_locks == 1 && g_elem_n == g_unlinked && g_elem_w, "C10.erase: between unlinking and destroying the element its WRITER lock is taken: every accessor and const_accessor still pointing to it has been released, and none can be attached any more");
+        OBLIGATION(g_elem_mode_at_lock == 0, "C10.erase: the element lock is waited for without holding the bucket lock");
+    } else
+        OBLIGATION(g_unlinks == 0 && g_deleted == 0 && g_size_dec == 0, "C10.erase: a failed erase changes nothing");
+    VACUITY_END();
+}
+void h_exclude(void) {
+    struct chm m; einit();
+    struct const_accessor a; a.my_node = any_node(); a.my_hash = nondet_size_t(); a.writer = nondet_bool();
+    __CPROVER_assume(a.my_node != NULL);
+    node_base *n = a.my_node;
+    bool r = exclude(&m, &a);
+    OBLIGATION(g_b_mode == 0, "C10.erase: the bucket lock is released on every path");
+    OBLIGATION(a.my_node == NULL && g_acc_released, "C10.erase: the accessor is released");
+    if (r) {
+        OBLIGATION(g_unlinks == 1 && g_unlinked == n && g_deleted == 1 && g_size_dec == 1, "C10.erase: erase by accessor unlinks, counts and destroys exactly the accessor's node");
+        OBLIGATION(g_acc_writer_at_release && g_acc_release_after_unlinks == 1, "C10.erase: the element is held EXCLUSIVELY (upgraded if it was a const_accessor) after the unlink and until just before destruction: no other accessor points to it");
+    } else
+        OBLIGATION(g_unlinks == 0 && g_deleted == 0 && g_size_dec == 0, "C10.erase: losing the race to another eraser changes nothing");
+    VACUITY_END();
+}
+#endif
